@@ -85,6 +85,11 @@ def run(R):
         swaps = [(p, e) for p, e in fn.events() if is_call(e, "std::swap")]
         clr = [(p, e) for p, e in fn.events() if e.get("k") == "call" and e.get("name") == "clear" and fld(F, fn, e.get("obj")) == CLS + "::backingAllocs_"]
         ok = bool(moves) and bool(clr) and all(fn.can_reach(mp, cp) for mp, _ in moves for cp, _ in clr) and not any(fn.can_reach(cp, mp) for mp, _ in moves for cp, _ in clr)
+        # ... on *every* path: the loop that moves the slabs must be passed on the way to the clear()
+        # (a move that only happens on one side of a branch forgets the slabs on the other side)
+        from lib.rules import natural_loops
+        heads = [h for h, body, tails in natural_loops(fn) if any(mp.b in body for mp, _ in moves)]
+        ok = ok and bool(heads) and all(any(fn.dominates(Pos(h, 0), cp) for h in heads) for cp, _ in clr)
         R.ob("C42.clear-reuse", fn, fn.loc, ok, "all slabs moved to the reuse list before backingAllocs_ is cleared" if ok else "clear() drops slabs without moving them to the reuse list (leak / double release)", sitekey="clear:" + fn.raw.get("clsinst", "")[-7:], why="clear() keeps the slabs for reuse")
     for fn in F.functions(qname=CLS + "::(dtor)"):
         ns += 1
